@@ -8,6 +8,9 @@ BASE_NOTE = "Trusted base: Go 1.26.8 toolchain (testing/synctest for the virtual
 
 # property -> (technique, level text, design ref, extra note)
 CLAIMED = {
+ "C16": ("exhaustive enumeration of event orders in a synctest bubble against slot invariants; rapid for longer histories",
+         "Every order of {arrive, cancel, finish} events for 3 requests (4 in the thorough tier) x cancel subsets x path assignments x limit pairs is executed one event at a time with quiescence detection after each, and the limit, no-lost-slot, arrival-order and cancelled-waiter invariants are evaluated at every quiescent point; longer random histories (4-7 requests, 3 paths) on top.",
+         "DESIGN.md 3/C16", "Events are applied one at a time; truly simultaneous admission/cancellation is left to the runtime's interleaving in the random engine."),
  "C14": ("systematic schedule enumeration under a cooperative scheduler (verif scheduling point) + stress histories, both checked against the sequential specification with porcupine; sequential model-based runs",
          "Every schedule (at critical-section granularity) of all 2-worker configurations over a 7-operation cache alphabet and of 1.5k (quick) / 40k (thorough) generated 2-3 worker configurations is executed and its history decided by a linearizability checker; 180k (quick) / 6M (thorough) stress trials with real goroutines under the race detector cover what cooperative scheduling cannot (splits inside an operation that has no scheduling point).",
          "DESIGN.md 3/C14", "The schedule enumeration is complete only relative to the scheduling points that exist; map iteration order is the runtime's."),
